@@ -5,7 +5,8 @@
      Part 3  C10  extended events and by-reference delivery are irrelevant
      Part 4  C14  allocation is proportional to the events, announced lengths never enter
      Part 5  C17  a completed document leaves nothing behind (sequencing)
-     Part 6  C11  direct route Fold -> Unfold for types without structs and interfaces *)
+     Part 6  C11  direct route Fold -> Unfold for types without structs and interfaces
+     Part 7  C11  direct route for flat structs (fields of the types of Part 6, no inlining) *)
 From Coq Require Import List NArith ZArith Bool Lia.
 From Coq Require Import ZifyBool ZifyNat ZifyN.
 From SF Require Import Base.Prelude Base.PreludeProofs Core.Events Core.EventsProofs Core.AdapterProofs.
@@ -3108,3 +3109,439 @@ Proof.
   cbn [forallb]. rewrite Hab. cbn [andb].
   rewrite forallb_forall in *. intros c Hc. eapply bytes_ltb_trans; [exact Hab|auto].
 Qed.
+
+(* ====================================================================== *)
+(* Part 7: C11 (direct route) for flat structs: the fields have types of   *)
+(* Part 6; names, "-", omit, omitempty and unexported fields; no inlining   *)
+(* ====================================================================== *)
+
+Definition emittable (name tag : bytes) : bool := exported name && negb (t_omit (snd (parse_tags tag))).
+Definition fkey (name tag : bytes) : bytes := field_name name (fst (parse_tags tag)).
+(* empty in the sense of omitempty, as the resolver chain of Fold decides it *)
+Definition emptyv (ft : gtype) (fv : gvalue) : bool :=
+  match resolve 1 ft fv with None => true | Some _ => false end.
+Definition emitted (name tag : bytes) (ft : gtype) (fv : gvalue) : bool :=
+  emittable name tag && negb (t_omitempty (snd (parse_tags tag)) && emptyv ft fv).
+
+Fixpoint nodupb (l : list bytes) : bool :=
+  match l with [] => true | k :: r => negb (existsb (bytes_eqb k) r) && nodupb r end.
+
+Fixpoint skeys (fs : list (bytes * bytes * gtype)) : list bytes :=
+  match fs with
+  | [] => []
+  | (name, tag, _) :: r => if emittable name tag then fkey name tag :: skeys r else skeys r
+  end.
+
+Definition flat_field (fd : bytes * bytes * gtype) : bool :=
+  match fd with (name, tag, ft) =>
+    simple ft && (negb (emittable name tag) || negb (t_squash (snd (parse_tags tag)))) end.
+Definition flat_fields (fs : list (bytes * bytes * gtype)) : bool :=
+  forallb flat_field fs && nodupb (skeys fs).
+
+Fixpoint wt_fields (fs : list (bytes * bytes * gtype)) (vs : list gvalue) : bool :=
+  match fs, vs with
+  | [], [] => true
+  | (_, _, ft) :: fr, fv :: vr => wt ft fv && wt_fields fr vr
+  | _, _ => false
+  end.
+
+Fixpoint fields_ev (fs : list (bytes * bytes * gtype)) (vs : list gvalue) : list event :=
+  match fs, vs with
+  | (name, tag, ft) :: fr, fv :: vr =>
+      (if emitted name tag ft fv then EKey (fkey name tag) :: xev false ft fv else []) ++ fields_ev fr vr
+  | _, _ => []
+  end.
+
+Fixpoint fields_nv (fs : list (bytes * bytes * gtype)) (vs : list gvalue) : list gvalue :=
+  match fs, vs with
+  | (name, tag, ft) :: fr, fv :: vr =>
+      (if emitted name tag ft fv then nv ft fv else zero_of ft) :: fields_nv fr vr
+  | _, _ => []
+  end.
+
+Definition zeros (fs : list (bytes * bytes * gtype)) : list gvalue := map (fun fd => zero_of (snd fd)) fs.
+
+Lemma zero_struct fs : zero_of (TStruct fs) = GStruct (zeros fs).
+Proof.
+  cbn [zero_of]. f_equal. induction fs as [|[[n tg] ft] fs IH]; [reflexivity|].
+  cbn [zeros map snd]. f_equal. exact IH.
+Qed.
+
+(* ---------- the field table of a flat struct ---------- *)
+Fixpoint table (fs : list (bytes * bytes * gtype)) (idx : nat) : ftable :=
+  match fs with
+  | [] => []
+  | (name, tag, ft) :: r =>
+      if emittable name tag then (fkey name tag, ([idx], ft)) :: table r (S idx) else table r (S idx)
+  end.
+
+Lemma table_keys fs : forall idx, map fst (table fs idx) = skeys fs.
+Proof.
+  induction fs as [|[[n tg] ft] fs IH]; intro idx; [reflexivity|].
+  cbn [table skeys]. destruct (emittable n tg); [cbn [map fst]; rewrite IH; reflexivity|apply IH].
+Qed.
+
+Lemma existsb_map {A B} (p : B -> bool) (g : A -> B) l : existsb p (map g l) = existsb (fun x => p (g x)) l.
+Proof. induction l as [|x l IH]; [reflexivity|]. cbn [map existsb]. rewrite IH. reflexivity. Qed.
+
+Lemma field_table_flat : forall fs fuel idx,
+  forallb flat_field fs = true -> nodupb (skeys fs) = true -> (length fs < fuel)%nat ->
+  field_table fuel fs idx = inr (table fs idx).
+Proof.
+  induction fs as [|[[name tag] ft] fs IH]; intros fuel idx Hf Hn Hl.
+  - destruct fuel; [cbn in Hl; lia|reflexivity].
+  - destruct fuel as [|fuel]; [cbn in Hl; lia|]. cbn [length] in Hl.
+    cbn [forallb flat_field] in Hf. apply andb_true_iff in Hf. destruct Hf as [Hf1 Hf].
+    apply andb_true_iff in Hf1. destruct Hf1 as [_ Hsq].
+    cbn [field_table table skeys] in *. unfold emittable, fkey in *.
+    destruct (exported name); cbn [negb andb] in *.
+    + destruct (parse_tags tag) as [tn o]. cbn [fst snd] in *.
+      destruct (t_omit o); cbn [negb orb] in *.
+      * rewrite IH by (auto; lia). reflexivity.
+      * destruct (t_squash o); [discriminate Hsq|].
+        cbn [nodupb] in Hn. apply andb_true_iff in Hn. destruct Hn as [Hn1 Hn].
+        rewrite IH by (auto; lia).
+        cbn [existsb fst]. rewrite orb_false_r.
+        rewrite <- (table_keys fs (S idx)) in Hn1. rewrite existsb_map in Hn1.
+        apply negb_true_iff in Hn1. rewrite Hn1. reflexivity.
+    + rewrite IH by (auto; lia). reflexivity.
+Qed.
+
+Lemma skeys_app a b : skeys (a ++ b) = skeys a ++ skeys b.
+Proof.
+  induction a as [|[[n tg] ft] a IH]; [reflexivity|]. cbn [app skeys].
+  destruct (emittable n tg); [cbn [app]; rewrite IH; reflexivity|exact IH].
+Qed.
+
+Lemma existsb_false_in {A} (p : A -> bool) l x : existsb p l = false -> In x l -> p x = false.
+Proof.
+  intros H Hin. destruct (p x) eqn:E; [|reflexivity].
+  assert (existsb p l = true) by (apply existsb_exists; eauto). congruence.
+Qed.
+
+Lemma assoc_table : forall pre name tag ft post idx,
+  nodupb (skeys (pre ++ (name, tag, ft) :: post)) = true -> emittable name tag = true ->
+  assoc_key (fkey name tag) (table (pre ++ (name, tag, ft) :: post) idx) = Some ([idx + length pre]%nat, ft).
+Proof.
+  induction pre as [|[[n' tg'] ft'] pre IH]; intros name tag ft post idx Hn He.
+  - cbn [app table length]. rewrite He. unfold assoc_key. cbn [find fst]. rewrite bytes_eqb_refl.
+    cbn [snd]. rewrite Nat.add_0_r. reflexivity.
+  - cbn [app table skeys length] in *. destruct (emittable n' tg') eqn:E'.
+    + cbn [nodupb] in Hn. apply andb_true_iff in Hn. destruct Hn as [Hn1 Hn].
+      apply negb_true_iff in Hn1.
+      assert (Hne : bytes_eqb (fkey n' tg') (fkey name tag) = false).
+      { apply (existsb_false_in _ _ _ Hn1). rewrite skeys_app. apply in_or_app. right.
+        cbn [skeys]. rewrite He. left. reflexivity. }
+      unfold assoc_key. cbn [find fst]. rewrite Hne.
+      fold (assoc_key (fkey name tag) (table (pre ++ (name, tag, ft) :: post) (S idx))).
+      rewrite IH by assumption. f_equal. f_equal. f_equal. lia.
+    + rewrite IH by assumption. f_equal. f_equal. f_equal. lia.
+Qed.
+
+(* ---------- the struct loop over the fields, into a zero struct ---------- *)
+Lemma nth_app_here {A} (a : list A) x b d : nth (length a) (a ++ x :: b) d = x.
+Proof. rewrite app_nth2 by lia. rewrite Nat.sub_diag. reflexivity. Qed.
+
+Lemma fields_ev_cons name tag ft fr fv vr :
+  fields_ev ((name, tag, ft) :: fr) (fv :: vr) =
+  (if emitted name tag ft fv then EKey (fkey name tag) :: xev false ft fv else []) ++ fields_ev fr vr.
+Proof. reflexivity. Qed.
+
+Lemma struct_loop_fields f tab : forall fs vs done g rest,
+  wt_fields fs vs = true ->
+  forallb (fun fd => simple (snd fd) && Nat.leb (ftsize (snd fd)) f) fs = true ->
+  (forall pre name tag ft post, fs = pre ++ (name, tag, ft) :: post -> emittable name tag = true ->
+     assoc_key (fkey name tag) tab = Some ([length done + length pre]%nat, ft)) ->
+  (length (fields_ev fs vs) < g)%nat ->
+  struct_loop f tab g (GStruct (done ++ zeros fs)) (fields_ev fs vs ++ EObjEnd :: rest)
+  = UOk (GStruct (done ++ fields_nv fs vs)) rest.
+Proof.
+  induction fs as [|[[name tag] ft] fs IH]; intros vs done g rest Hw Hs Hk Hg.
+  - destruct vs; [|discriminate Hw]. destruct g as [|g]; [cbn in Hg; lia|].
+    cbn [fields_ev fields_nv zeros map app]. rewrite struct_loop_S. reflexivity.
+  - destruct vs as [|fv vs]; [discriminate Hw|].
+    cbn [wt_fields] in Hw. apply andb_true_iff in Hw. destruct Hw as [Hwf Hw].
+    cbn [forallb snd] in Hs. apply andb_true_iff in Hs. destruct Hs as [Hs1 Hs].
+    apply andb_true_iff in Hs1. destruct Hs1 as [Hsf Hff]. apply Nat.leb_le in Hff.
+    assert (Hk' : forall pre name0 tag0 ft0 post, fs = pre ++ (name0, tag0, ft0) :: post ->
+              emittable name0 tag0 = true ->
+              assoc_key (fkey name0 tag0) tab = Some ([length (done ++ [if emitted name tag ft fv then nv ft fv else zero_of ft]) + length pre]%nat, ft0)).
+    { intros pre n0 t0 f0 post E He. rewrite app_length. cbn [length].
+      rewrite (Hk ((name, tag, ft) :: pre) n0 t0 f0 post (f_equal (cons (name, tag, ft)) E) He).
+      cbn [length]. f_equal. f_equal. f_equal. lia. }
+    rewrite fields_ev_cons in *. cbn [fields_nv].
+    change (zeros ((name, tag, ft) :: fs)) with (zero_of ft :: zeros fs).
+    destruct (emitted name tag ft fv) eqn:Em.
+    + destruct g as [|g]; [cbn in Hg; lia|].
+      cbn [app]. rewrite <- app_assoc.
+      change (EKey (fkey name tag)) with (key_event (fkey name tag) false). rewrite struct_loop_key.
+      assert (He : emittable name tag = true) by (unfold emitted in Em; apply andb_true_iff in Em; tauto).
+      rewrite (Hk [] name tag ft fs eq_refl He). cbn [length]. rewrite Nat.add_0_r.
+      cbn [get_path]. rewrite nth_app_here. cbn [get_path].
+      rewrite (unfold_all f ft fv false _ Hsf Hwf Hff).
+      cbn [set_path]. rewrite replace_nth_app.
+      change (done ++ nv ft fv :: zeros fs) with (done ++ [nv ft fv] ++ zeros fs). rewrite app_assoc.
+      rewrite (IH vs (done ++ [nv ft fv]) g rest Hw Hs Hk').
+      * rewrite <- app_assoc. reflexivity.
+      * cbn [app length] in Hg. rewrite app_length in Hg. lia.
+    + cbn [app]. change (done ++ zero_of ft :: zeros fs) with (done ++ [zero_of ft] ++ zeros fs). rewrite app_assoc.
+      rewrite (IH vs (done ++ [zero_of ft]) g rest Hw Hs Hk').
+      * rewrite <- app_assoc. reflexivity.
+      * cbn [app] in Hg. exact Hg.
+Qed.
+
+Definition fsum (fs : list (bytes * bytes * gtype)) : nat :=
+  (fix go (l : list (bytes * bytes * gtype)) : nat :=
+     match l with [] => O | (_, _, ft) :: r => S (ftsize ft + go r) end) fs.
+
+Lemma ftsize_struct fs : ftsize (TStruct fs) = S (fsum fs).
+Proof. reflexivity. Qed.
+
+Lemma fsum_cons n tg ft fs : fsum ((n, tg, ft) :: fs) = S (ftsize ft + fsum fs).
+Proof. reflexivity. Qed.
+
+Lemma fsum_bounds fs : (length fs <= fsum fs)%nat /\ forall fd, In fd fs -> (ftsize (snd fd) <= fsum fs)%nat.
+Proof.
+  induction fs as [|[[n tg] ft] fs [IH1 IH2]]; [split; [cbn; lia|contradiction]|].
+  rewrite fsum_cons. cbn [length]. split; [lia|]. intros fd [<-|H]; cbn [snd]; [lia|]. specialize (IH2 fd H). lia.
+Qed.
+
+Lemma uf_flat_struct fs vs F n bt rest :
+  flat_fields fs = true -> wt_fields fs vs = true -> (ftsize (TStruct fs) <= F)%nat ->
+  uf F (TStruct fs) (zero_of (TStruct fs)) (EObjStart n bt :: fields_ev fs vs ++ EObjEnd :: rest)
+  = UOk (GStruct (fields_nv fs vs)) rest.
+Proof.
+  intros Hf Hw HF. unfold flat_fields in Hf. apply andb_true_iff in Hf. destruct Hf as [Hff Hnd].
+  rewrite ftsize_struct in HF. destruct F as [|f]; [lia|].
+  destruct (fsum_bounds fs) as [Hlen Hin].
+  rewrite (uf_S_struct _ _ fs) by reflexivity.
+  rewrite field_table_flat by (auto; rewrite ftsize_struct; lia).
+  rewrite zero_struct.
+  apply (struct_loop_fields f (table fs 0) fs vs [] _ rest Hw).
+  - apply forallb_forall. intros [[n0 t0] ft0] Hfd. cbn [snd].
+    rewrite forallb_forall in Hff. specialize (Hff _ Hfd). cbn [flat_field] in Hff.
+    apply andb_true_iff in Hff. destruct Hff as [Hs _]. rewrite Hs. cbn [andb].
+    apply Nat.leb_le. specialize (Hin _ Hfd). cbn [snd] in Hin. lia.
+  - intros pre name tag ft post E He. subst fs. rewrite (assoc_table pre name tag ft post 0 Hnd He). reflexivity.
+  - rewrite app_length. cbn [length]. lia.
+Qed.
+
+(* ---------- omitempty on fields of these types ---------- *)
+Lemma simple_base_not_iface t : simple t = true -> under (snd (base_type t)) <> TIface.
+Proof.
+  intro Hs. pose proof (base_simple t Hs) as Hb. destruct (snd (base_type t)); try discriminate Hb; try discriminate.
+  cbn [simple] in Hb. cbn [under]. destruct g; try discriminate Hb; discriminate.
+Qed.
+
+Lemma resolve_simple f ft fv : simple ft = true ->
+  resolve (S f) ft fv = resolve 1 ft fv /\
+  (forall t' v', resolve 1 ft fv = Some (t', v') ->
+     t' = snd (base_type ft) /\ Fold.deref (fst (base_type ft)) fv = Some v').
+Proof.
+  intro Hs. pose proof (simple_base_not_iface ft Hs) as Hni. cbn [resolve].
+  destruct (base_type ft) as [n bt]. cbn [fst snd] in *.
+  destruct (Fold.deref n fv) as [bv|]; [|split; [reflexivity|discriminate]].
+  destruct (under bt); try contradiction; (split; [reflexivity|]); intros t' v' H;
+    try (injection H as <- <-; split; reflexivity);
+    (destruct (Fold.glen bv >? 0); [injection H as <- <-; split; reflexivity|discriminate H]).
+Qed.
+
+Lemma emptyv_ptr u x : emptyv (TPtr u) (GPtr x) = emptyv u x.
+Proof. unfold emptyv. cbn [resolve base_type]. destruct (base_type u) as [n bt]. reflexivity. Qed.
+
+Lemma empty_spec : forall ft fv g, simple ft = true -> wt ft fv = true -> (ftsize ft <= g)%nat ->
+  spec_empty g ft fv = emptyv ft fv.
+Proof.
+  induction ft; intros fv g Hs Hw Hg; try discriminate Hs;
+    (destruct g as [|g]; [pose proof (ftsize_pos ft) as Hp || idtac; cbn [ftsize] in Hg; lia|]);
+    rewrite spec_empty_S.
+  - destruct fv; try discriminate Hw; reflexivity.
+  - destruct fv; try discriminate Hw. cbn [under]. unfold emptyv. cbn. unfold zlen. destruct (length s); reflexivity.
+  - destruct fv; try discriminate Hw; reflexivity.
+  - cbn [under]. cbn [simple] in Hs. cbn [ftsize] in Hg.
+    destruct fv; cbn [wt under] in Hw; try discriminate Hw.
+    + unfold emptyv. cbn [resolve base_type]. destruct (base_type ft) as [n bt]. reflexivity.
+    + rewrite emptyv_ptr. apply IHft; [exact Hs|exact Hw|lia].
+  - cbn [under]. destruct fv; cbn [wt under] in Hw; try discriminate Hw.
+    + reflexivity.
+    + unfold emptyv. cbn. unfold zlen. destruct (length vs); reflexivity.
+  - cbn [under]. destruct fv; cbn [wt under] in Hw; try discriminate Hw.
+    + reflexivity.
+    + unfold emptyv. cbn. unfold zlen. destruct (length kvs); reflexivity.
+  - cbn [simple] in Hs. cbn [under]. destruct ft; try discriminate Hs; rewrite wt_named in Hw by reflexivity.
+    + destruct fv; try discriminate Hw; reflexivity.
+    + destruct fv; try discriminate Hw. unfold emptyv. cbn. unfold zlen. destruct (length s); reflexivity.
+    + destruct fv; try discriminate Hw; reflexivity.
+    + destruct fv; cbn [wt under] in Hw; try discriminate Hw.
+      * reflexivity.
+      * unfold emptyv. cbn. unfold zlen. destruct (length vs); reflexivity.
+    + destruct fv; cbn [wt under] in Hw; try discriminate Hw.
+      * reflexivity.
+      * unfold emptyv. cbn. unfold zlen. destruct (length kvs); reflexivity.
+Qed.
+
+(* ---------- what Fold sends for the fields ---------- *)
+Lemma Fields_ev f : forall fs vs evs,
+  forallb flat_field fs = true -> wt_fields fs vs = true ->
+  Fields (S f) fs vs = (evs, None) -> flat_map expand evs = fields_ev fs vs.
+Proof.
+  induction fs as [|[[name tag] ft] fs IH]; intros vs evs Hf Hw H.
+  - rewrite Fields_nil_l in H. injection H as <-. destruct vs; reflexivity.
+  - destruct vs as [|fv vs]; [discriminate Hw|].
+    cbn [wt_fields] in Hw. apply andb_true_iff in Hw. destruct Hw as [Hwf Hw].
+    cbn [forallb flat_field] in Hf. apply andb_true_iff in Hf. destruct Hf as [Hf1 Hf].
+    apply andb_true_iff in Hf1. destruct Hf1 as [Hs Hsq].
+    rewrite Fields_cons in H. apply fseq_ok in H. destruct H as (e1 & e2 & H1 & H2 & ->).
+    rewrite flat_map_app, (IH vs e2 Hf Hw H2). rewrite fields_ev_cons. f_equal.
+    unfold Field1 in H1. unfold emitted, emittable, fkey in *.
+    destruct (exported name); cbn [negb andb] in *; [|injection H1 as <-; reflexivity].
+    destruct (parse_tags tag) as [tn o]. cbn [fst snd] in *.
+    destruct (t_omit o); cbn [negb orb andb] in *; [injection H1 as <-; reflexivity|].
+    destruct (t_squash o); [discriminate Hsq|].
+    unfold Member in H1. destruct (t_omitempty o); cbn [andb].
+    + destruct (resolve_simple f ft fv Hs) as [R1 R2]. rewrite R1 in H1. unfold emptyv.
+      destruct (resolve 1 ft fv) as [[t' v']|] eqn:Er; cbn [negb]; [|injection H1 as <-; reflexivity].
+      destruct (R2 t' v' eq_refl) as [-> Hd].
+      apply fseq_fok_l in H1. destruct H1 as (e3 & H1 & ->).
+      destruct (ptr_chain ft fv Hs Hwf) as [_ P2]. destruct (P2 v' Hd) as [Hwb Hx].
+      pose proof (base_simple ft Hs) as Hb.
+      assert (HR : rf (S f) false (snd (base_type ft)) v' = (e3, None)).
+      { unfold Resolved in H1. destruct (snd (base_type ft)); try discriminate Hb; apply Anyr_rf_ok in H1; exact H1. }
+      cbn [flat_map app expand]. rewrite (fold_all _ _ _ _ Hb Hwb HR), Hx. reflexivity.
+    + apply fseq_fok_l in H1. destruct H1 as (e3 & H1 & ->).
+      cbn [flat_map app expand negb]. rewrite (fold_all _ _ _ _ Hs Hwf H1). reflexivity.
+Qed.
+
+(* ---------- deep equality of the fields ---------- *)
+Lemma deep_eq_zero : forall F t, simple t = true -> (1 <= F)%nat -> deep_eq F t (zero_of t) (zero_of t) = true.
+Proof.
+  intros [|f] t Hs HF; [lia|]. rewrite deep_eq_S.
+  destruct (simple_cases t Hs) as [t Hp|u Hu|t e U He _|t e U He _].
+  - rewrite (zero_under t). destruct (under t); try discriminate Hp; reflexivity.
+  - reflexivity.
+  - rewrite (zero_under t), U. reflexivity.
+  - rewrite (zero_under t), U. reflexivity.
+Qed.
+
+Definition ov_fields (f : nat) :=
+  fix go (fs : list (bytes * bytes * gtype)) (vs : list gvalue) : list gvalue :=
+    match fs, vs with
+    | (name, tag, ft) :: fr, fv :: vr =>
+        let o := snd (parse_tags tag) in
+        (if negb (exported name) || t_omit o || (t_omitempty o && spec_empty (S f) ft fv)
+         then zero_of ft else omit_view f ft fv) :: go fr vr
+    | _, _ => []
+    end.
+
+Lemma omit_view_struct f fs vs :
+  omit_view (S f) (TStruct fs) (GStruct vs) = GStruct (ov_fields f fs vs).
+Proof. reflexivity. Qed.
+
+Lemma ov_fields_cons f name tag ft fr fv vr :
+  ov_fields f ((name, tag, ft) :: fr) (fv :: vr) =
+  (if negb (exported name) || t_omit (snd (parse_tags tag)) || (t_omitempty (snd (parse_tags tag)) && spec_empty (S f) ft fv)
+   then zero_of ft else omit_view f ft fv) :: ov_fields f fr vr.
+Proof. reflexivity. Qed.
+
+Lemma deq_fields_flat f : forall fs vs,
+  forallb flat_field fs = true -> wt_fields fs vs = true ->
+  forallb (fun fd => Nat.ltb (ftsize (snd fd)) f) fs = true ->
+  deq_fields f fs (ov_fields f fs vs) (fields_nv fs vs) = true.
+Proof.
+  induction fs as [|[[name tag] ft] fs IH]; intros vs Hf Hw Hsz.
+  - destruct vs; [reflexivity|discriminate Hw].
+  - destruct vs as [|fv vs]; [discriminate Hw|].
+    cbn [wt_fields] in Hw. apply andb_true_iff in Hw. destruct Hw as [Hwf Hw].
+    cbn [forallb flat_field] in Hf. apply andb_true_iff in Hf. destruct Hf as [Hf1 Hf].
+    apply andb_true_iff in Hf1. destruct Hf1 as [Hs _].
+    cbn [forallb snd] in Hsz. apply andb_true_iff in Hsz. destruct Hsz as [Hlt Hsz]. apply Nat.ltb_lt in Hlt.
+    rewrite ov_fields_cons. cbn [fields_nv deq_fields]. rewrite (IH vs Hf Hw Hsz), andb_true_r.
+    rewrite (empty_spec ft fv (S f) Hs Hwf) by lia.
+    unfold emitted, emittable.
+    destruct (exported name); cbn [negb orb andb]; [|apply deep_eq_zero; [exact Hs|lia]].
+    destruct (t_omit (snd (parse_tags tag))); cbn [negb orb andb]; [apply deep_eq_zero; [exact Hs|lia]|].
+    destruct (t_omitempty (snd (parse_tags tag)) && emptyv ft fv); cbn [negb]; [apply deep_eq_zero; [exact Hs|lia]|].
+    rewrite omit_view_simple by exact Hs. apply deep_eq_nv; [exact Hs|exact Hwf|exact Hlt].
+Qed.
+
+(* C11 (direct route) for flat structs *)
+Theorem C11_direct_struct_partial : forall fs vs evs,
+  flat_fields fs = true -> wt_fields fs vs = true ->
+  fold_value (TStruct fs) (GStruct vs) = (evs, None) -> ucc_type (TStruct fs) = None ->
+  exists v', unfold_value (TStruct fs) (zero_of (TStruct fs)) evs = UDone v' /\
+             forall F, (ftsize (TStruct fs) < F)%nat ->
+               deep_eq F (TStruct fs) (omit_view F (TStruct fs) (GStruct vs)) v' = true.
+Proof.
+  intros fs vs evs Hf Hw H Hu. exists (GStruct (fields_nv fs vs)). split.
+  - unfold fold_value in H.
+    remember (4 * (tsize (TStruct fs) + vsize (GStruct vs)) + 8)%nat as fuel eqn:Ef.
+    destruct fuel as [|[|[|f]]]; try lia.
+    rewrite ftop_S in H.
+    change (Fast (S (S f)) (GStruct vs) (TStruct fs)) with (@None fr) in H.
+    apply Anyr_rf_ok in H. rewrite rf_S in H. cbn [prim_fold] in H.
+    apply fseq_fok_l in H. destruct H as (e2 & H & ->).
+    apply fseq_fok_r in H. destruct H as (e1 & H & ->).
+    unfold flat_fields in Hf. pose proof Hf as Hf'. apply andb_true_iff in Hf'. destruct Hf' as [Hff _].
+    pose proof (Fields_ev f fs vs e1 Hff Hw H) as Hx.
+    unfold unfold_value. rewrite Hu. cbn [app flat_map expand]. rewrite flat_map_app, Hx. cbn [flat_map expand app].
+    rewrite (uf_flat_struct fs vs _ _ _ [] Hf Hw); [reflexivity|lia].
+  - intros F HF. destruct F as [|f]; [lia|]. rewrite deep_eq_S, omit_view_struct. cbn [under].
+    unfold flat_fields in Hf. apply andb_true_iff in Hf. destruct Hf as [Hff _].
+    apply deq_fields_flat; [exact Hff|exact Hw|].
+    apply forallb_forall. intros fd Hfd. apply Nat.ltb_lt.
+    rewrite ftsize_struct in HF. destruct (fsum_bounds fs) as [_ Hin]. specialize (Hin fd Hfd). lia.
+Qed.
+Print Assumptions C11_direct_struct_partial.
+
+(* the setup check accepts flat structs *)
+Lemma table_types fs : forall idx k path ft, In (k, (path, ft)) (table fs idx) -> exists n tg, In (n, tg, ft) fs.
+Proof.
+  induction fs as [|[[n tg] ft0] fs IH]; intros idx k path ft H; [contradiction|].
+  cbn [table] in H. destruct (emittable n tg).
+  - destruct H as [H|H]; [injection H as _ _ <-; exists n, tg; left; reflexivity|].
+    destruct (IH _ _ _ _ H) as (n' & tg' & Hin). exists n', tg'. right. exact Hin.
+  - destruct (IH _ _ _ _ H) as (n' & tg' & Hin). exists n', tg'. right. exact Hin.
+Qed.
+
+Lemma ucc_flat fs : flat_fields fs = true -> ucc_type (TStruct fs) = None.
+Proof.
+  intro Hf. unfold flat_fields in Hf. apply andb_true_iff in Hf. destruct Hf as [Hff Hnd].
+  unfold ucc_type. cbn [ucc under]. destruct (fsum_bounds fs) as [Hlen Hin].
+  rewrite field_table_flat by (auto; rewrite ftsize_struct; lia).
+  assert (H : forall e, In e (table fs 0) -> ucc (ftsize (TStruct fs)) (snd (snd e)) = None).
+  { intros [k [path ft]] He. cbn [snd]. destruct (table_types _ _ _ _ _ He) as (n & tg & Hfd).
+    rewrite forallb_forall in Hff. specialize (Hff _ Hfd). cbn [flat_field] in Hff.
+    apply andb_true_iff in Hff. destruct Hff as [Hs _].
+    apply ucc_simple; [exact Hs|]. specialize (Hin _ Hfd). cbn [snd] in Hin. rewrite ftsize_struct. lia. }
+  induction (table fs 0) as [|e l IH]; [reflexivity|].
+  cbn [fold_right]. rewrite (H e) by (left; reflexivity). apply IH. intros e' He'. apply H. right. exact He'.
+Qed.
+
+Corollary C11_direct_struct_partial' : forall fs vs evs,
+  flat_fields fs = true -> wt_fields fs vs = true ->
+  fold_value (TStruct fs) (GStruct vs) = (evs, None) ->
+  exists v', unfold_value (TStruct fs) (zero_of (TStruct fs)) evs = UDone v' /\
+             forall F, (ftsize (TStruct fs) < F)%nat ->
+               deep_eq F (TStruct fs) (omit_view F (TStruct fs) (GStruct vs)) v' = true.
+Proof. intros fs vs evs Hf Hw H. apply C11_direct_struct_partial; try assumption. apply ucc_flat. exact Hf. Qed.
+Print Assumptions C11_direct_struct_partial'.
+
+(* an instance: names, omitempty (empty and not), "-", unexported, pointers, slices, maps *)
+Definition ex_fs : list (bytes * bytes * gtype) :=
+  [([65], [], TNum KInt);                                   (* A int *)
+   ([66], [110; 44] ++ s_omitempty, TPtr TString);           (* B *string `struct:"n,omitempty"` *)
+   ([67], [44] ++ s_omitempty, TSlice (TNum KUint8));        (* C []byte `struct:",omitempty"` *)
+   ([68], [45], TBool);                                      (* D bool `struct:"-"` *)
+   ([101], [], TNum KFloat64);                               (* e float64, unexported *)
+   ([70], [44] ++ s_omitempty, TMap (TPtr (TNum KInt8)))].   (* F map[string]*int8 `struct:",omitempty"` *)
+Definition ex_vs : list gvalue :=
+  [GNum (-7); GPtr (GStr [104; 105]); GList []; GBool true; GNum 99; GMap [([120], GNil); ([121], GPtr (GNum 3))]].
+Example C11_struct_example :
+  flat_fields ex_fs = true /\ wt_fields ex_fs ex_vs = true /\
+  fold_value (TStruct ex_fs) (GStruct ex_vs) =
+    ([EObjStart (-1) BAny; EKey [97]; EVal (SNum KInt64 (-7)); EKey [110]; EVal (SStr [104; 105]);
+      EKey [102]; EObjStart 2 BAny; EKey [120]; EVal SNil; EKey [121]; EVal (SNum KInt8 3); EObjEnd; EObjEnd], None) /\
+  unfold_value (TStruct ex_fs) (zero_of (TStruct ex_fs)) (fst (fold_value (TStruct ex_fs) (GStruct ex_vs))) =
+    UDone (GStruct [GNum (-7); GPtr (GStr [104; 105]); GNil; GBool false; GNum 0;
+                    GMap [([120], GNil); ([121], GPtr (GNum 3))]]).
+Proof. vm_compute. repeat split; reflexivity. Qed.
